@@ -157,7 +157,10 @@ Definition deframe (df : list Z -> dres) : MF (io (option (Z * Z))) :=
 (* impl std::io::Write / std::io::Read for FixedBuf *)
 Definition io_write (data : list Z) : MF (io Z) :=
   r_1 <- write_bytes data ;;
-  ret (match r_1 with Ok n => Ok n | Err _ => Err InvalidData end).   (* From<NotEnoughSpaceError> *)
+  match r_1 with
+  | Err _ => ret (Err InvalidData)      (* `?` through From<NotEnoughSpaceError> for io::Error *)
+  | Ok v => ret (Ok v)
+  end.
 Definition io_flush : MF (io unit) := ret (Ok tt).
 Definition io_read (buf : list Z) : MF (io Z * list Z) :=
   r_1 <- read_and_copy_bytes buf ;; ret (Ok (fst r_1), snd r_1).
@@ -189,6 +192,9 @@ Definition copy_once_from : MW (io Z) :=
   end.
 
 Inductive frame_res := FFrame (payload : list Z) | FNone | FErr (e : ekind).
+(* how the three-constructor result type represents Result<Option<&[u8]>, io::Error> *)
+Definition to_fr (r : io (option (list Z))) : frame_res :=
+  match r with Err e => FErr e | Ok None => FNone | Ok (Some p) => FFrame p end.
 Definition read_frame_body (df : list Z -> dres) : MW (option frame_res) :=
   e_1 <- self_ is_empty ;;
   k_2 <- (if negb e_1 then
